@@ -5,7 +5,8 @@ from __future__ import annotations
 import ast
 
 from ..cfg import walk_no_nested
-from ..dataflow import origins
+from ..dataflow import bind_call, origins
+from ..decide import Decider, role_of
 from ..loader import AnalysisError, FuncInfo
 from ..report import Ctx
 from .common import all_guards, direct_guards, norm, where
@@ -64,7 +65,8 @@ def check_cleanup_guards(ctx: Ctx) -> None:
 
 
 def check_spacing_arms(ctx: Ctx) -> None:
-    """render_list: one arm per ListSpacing member, each depending on the right input."""
+    """render_list: under each ListSpacing mode, the tightness the renderer stores is the one the statement names.
+    Decided by evaluating the renderer's paths under `mode == M` for every member M (helpers followed)."""
     repo, prog = ctx.repo, ctx.prog
     rm = get_model(ctx)
     lm = rm.methods.get("List")
@@ -74,56 +76,89 @@ def check_spacing_arms(ctx: Ctx) -> None:
     el = rm.el_param(lm)
     enum = repo.cls("flowmark.formats.flowmark_markdown:ListSpacing")
     members = [st.targets[0].id for st in enum.node.body if isinstance(st, ast.Assign) and isinstance(st.targets[0], ast.Name)]
-    # definitions of the local tightness decision, by the enum member that guards them
-    arms: dict[str, list] = {}
-    tests = [n for n in flow.cfg.nodes if n.kind == "test" and any(
-        isinstance(x, ast.Attribute) and isinstance(x.value, ast.Name) and x.value.id == "ListSpacing" for x in ast.walk(n.ast))]
-    ctx.require("R-DECISION-spacing", "comparisons against ListSpacing members in the list renderer", len(tests), 1)
-    named = set()
-    for t in tests:
-        for x in ast.walk(t.ast):
-            if isinstance(x, ast.Attribute) and isinstance(x.value, ast.Name) and x.value.id == "ListSpacing":
-                named.add(x.attr)
-    ctx.ob("R-DECISION-spacing", f"{lm.qual} :: arms cover the enum", len(named) >= len(members) - 1 and named <= set(members),
-           f"ListSpacing has members {members}; the renderer compares against {sorted(named)} and handles the remaining one in the else arm",
-           where(lm, lm.node))
-    assigns = [n for n in flow.cfg.nodes if n.kind == "stmt" and isinstance(n.ast, ast.Assign) and isinstance(n.ast.targets[0], ast.Name)]
-    decided = None
-    for n in assigns:
-        gs = [(b, lab) for b, lab in all_guards(prog, lm, n) if b in tests]
-        if gs:
-            decided = n.ast.targets[0].id
-            taken = {x.attr for b, lab in gs if lab == "T" for x in ast.walk(b.ast)
-                     if isinstance(x, ast.Attribute) and isinstance(x.value, ast.Name) and x.value.id == "ListSpacing"}
-            arm = next(iter(taken)) if len(taken) == 1 else "else:" + ",".join(sorted(set(members) - named))
-            arms.setdefault(arm, []).append(n)
-    ctx.note("list_spacing_arms", {k: [norm(n.ast) for n in v] for k, v in arms.items()})
-    for arm, nodes in arms.items():
-        n = nodes[0]
-        sl = prog.slice(lm, n.ast.value, n)
-        key = f"{lm.qual} :: arm {arm}"
-        name = arm.replace("else:", "")
-        if name == "preserve":
-            ctx.ob("R-DECISION-spacing", key, f"{el}.tight" in sl.attrs(),
-                   "preserve must keep the list as authored: tightness = element.tight", where(lm, n))
-        elif name == "tight":
-            dep = f"{el}.children" in sl.attrs() or any("_can_be_tight" in c for c in sl.callees())
-            const_true = isinstance(n.ast.value, ast.Constant)
-            ctx.ob("R-DECISION-spacing", key, dep and not const_true,
-                   "tight must depend on the items' blocks (a list whose items hold several blocks cannot be tight)", where(lm, n))
-        elif name == "loose":
-            ctx.ob("R-DECISION-spacing", key, isinstance(n.ast.value, ast.Constant) and n.ast.value.value is False,
-                   "loose separates the items of every list: tightness = False", where(lm, n))
-    ctx.ob("R-DECISION-spacing", f"{lm.qual} :: one arm per mode", {a.replace("else:", "") for a in arms} == set(members),
-           f"arms found for {sorted(arms)}; modes are {members}", where(lm, lm.node))
+
+    def member_of(e: ast.AST) -> str | None:
+        if isinstance(e, ast.Attribute) and isinstance(e.value, ast.Name) and e.value.id == enum.name and e.attr in members:
+            return e.attr
+        return None
+
+    def value_leaf(cur: FuncInfo, e: ast.AST, aliases: frozenset):
+        if isinstance(e, ast.Attribute) and e.attr == "tight" and "el" in role_of(e.value, aliases):
+            return "AUTHORED"
+        if isinstance(e, ast.Call):
+            # a value computed from the items of the list (element.children ...)
+            for a in list(e.args) + [k.value for k in e.keywords] + [e.func]:
+                for x in ast.walk(a):
+                    if isinstance(x, ast.Attribute) and x.attr == "children" and "el" in role_of(x.value, aliases):
+                        return "ITEMS"
+            t = prog.resolve_call(cur, e)
+            if isinstance(t, list) and len(t) == 1 and not isinstance(t[0].node, ast.Lambda):
+                callee = t[0]
+                b = bind_call(callee, e)
+                for pname, arg in b.items():
+                    if "el" in role_of(arg, aliases):
+                        summ = prog.summary(callee, True, 0)
+                        if summ is not None and any(a == f"{pname}.children" or a.startswith(f"{pname}.children.") for a in summ.attrs() | {x[1] for x in summ.sources if x[0] == "attr-of"}):
+                            return "ITEMS"
+        return None
+
+    outcomes: dict[str, dict[str, set]] = {}
+    for mode in members:
+        def atom(leaf: ast.AST, aliases: frozenset, mode=mode) -> bool | None:
+            if isinstance(leaf, ast.Compare) and len(leaf.ops) == 1:
+                l, r = leaf.left, leaf.comparators[0]
+                m1, m2 = member_of(l), member_of(r)
+                if (m1 is None) == (m2 is None):
+                    if isinstance(leaf.ops[0], (ast.In, ast.NotIn)) and isinstance(r, (ast.Tuple, ast.Set, ast.List)) and all(member_of(x) for x in r.elts):
+                        v = mode in {member_of(x) for x in r.elts}
+                        return v if isinstance(leaf.ops[0], ast.In) else not v
+                    return None
+                mm = m1 or m2
+                if isinstance(leaf.ops[0], (ast.Eq, ast.Is)):
+                    return mm == mode
+                if isinstance(leaf.ops[0], (ast.NotEq, ast.IsNot)):
+                    return mm != mode
+            return None
+        dec = Decider(prog, atom, value_leaf=value_leaf)
+        stores: dict[str, set] = {}
+        for _end, _env, _benv, outs in dec.walk(lm, flow.cfg.entry, None, frozenset({f"el={el}"})):
+            first: dict[str, frozenset] = {}
+            for o in outs:
+                if isinstance(o, tuple) and o and o[0] == "store":
+                    first.setdefault(o[1], o[2])
+            for k, v in first.items():
+                stores.setdefault(k, set()).update(v)
+        outcomes[mode] = stores
+    # the attribute decided by the mode: the one whose stored value differs between modes
+    keys = set().union(*[set(v) for v in outcomes.values()]) if outcomes else set()
+    decided = [k for k in sorted(keys) if len({frozenset(outcomes[m].get(k, ())) for m in members}) > 1]
+    ctx.note("list_spacing_outcomes", {m: {k: sorted(map(str, v)) for k, v in outcomes[m].items()} for m in members})
+    if not decided:
+        raise AnalysisError(f"list renderer: no attribute whose stored value depends on the ListSpacing mode was found in {lm.qual}")
+    k = decided[0]
+    want = {"preserve": ({"AUTHORED"}, "preserve must keep the list as authored: tightness = element.tight"),
+            "tight": ({"ITEMS"}, "tight must depend on the items' blocks (a list whose items hold several blocks cannot be tight)"),
+            "loose": ({False}, "loose separates the items of every list: tightness = False")}
+    for mode in members:
+        got = outcomes[mode].get(k, set())
+        if mode in want:
+            exp, msg = want[mode]
+            ctx.ob("R-DECISION-spacing", f"{lm.qual} :: arm {mode}", got == exp, f"{msg}; under mode={mode} `{k}` is set to {sorted(map(str, got))}", where(lm, lm.node))
+    ctx.ob("R-DECISION-spacing", f"{lm.qual} :: one arm per mode", set(members) == set(want) and all(outcomes[m].get(k) for m in members),
+           f"modes are {members}; each must decide `{k}`", where(lm, lm.node))
     # _can_be_tight looks at every item's children
     cbt = next((m for m in lm.cls.methods.values() if m.name == "_can_be_tight"), None) if lm.cls else None
     if cbt is not None:
         cf = prog.flow(cbt)
-        loops = [h for h in cf.cfg.nodes if h.kind == "for"]
-        ok = any("children" in norm(h.ast.iter) for h in loops) and any(
-            isinstance(x, ast.Compare) and "len(" in norm(x) and "children" in norm(x) for x in walk_no_nested(cbt.node))
+        iters = [h.ast.iter for h in cf.cfg.nodes if h.kind == "for"]
+        comps = [x for x in ast.walk(cbt.node) if isinstance(x, ast.comprehension)]
+        iters += [g.iter for g in comps]
+        ok = any("children" in norm(it) for it in iters) and any(
+            isinstance(x, ast.Compare) and "len(" in norm(x) and "children" in norm(x) for x in ast.walk(cbt.node))
+        # the verdict can be negative: an explicit `return False`, or the value of all()/any() over the items
         false_rets = [r for r in cf.cfg.returns() if isinstance(r.ast.value, ast.Constant) and r.ast.value.value is False]
-        ctx.ob("R-DECISION-spacing", f"{cbt.qual} :: inspects every item's block count", ok and bool(false_rets),
+        agg_rets = [r for r in cf.cfg.returns() if any(isinstance(c, ast.Call) and isinstance(c.func, ast.Name) and c.func.id in ("all", "any")
+                                                        for c in ast.walk(r.ast.value or ast.Constant(value=None)))]
+        ctx.ob("R-DECISION-spacing", f"{cbt.qual} :: inspects every item's block count", ok and bool(false_rets or agg_rets),
                "a list can be tight only if each item holds a single block: the helper must loop over all items and compare len(item.children)",
                where(cbt, cbt.node))
